@@ -2,7 +2,7 @@ SPECIFICATION GSpec
 CONSTANTS
   Behaviors = {"A", "B"}
   MaxOps = 2
-  MaxRestarts = 0
+  MaxRestarts = 2
   Defects = {}
   Depth = 6
 CONSTRAINT Emit
